@@ -60,13 +60,18 @@ package feldman
 //@   purefn
 //@   ensures err == nil ==> result != nil && result.id == id
 //@   ensures err == nil ==> res(d.mspMatrix.HoldersToRows().Get(id), 1)
+// nrows(msp, id): the number of MSP rows owned by holder id. Assumed (free): the lifted share has one
+// component per owned row (SubMatrixGivenRows / Iter / slices.Collect are generic wrappers outside the model).
+//@   free ensures err == nil ==> len(result.v) == nrows(d.mspMatrix, id)
 
 // Verification accepts only if every step of the verification equation M_i * V == [lambda_i]G succeeded:
 // the lifted dealer function could be built (LeftAction: dimension of V equals the MSP column count), the
 // claimed holder exists, the share could be lifted, and the two lifted shares are Equal (same id, same
 // length, every component equal).
+//@ ghost func nrows(m V, id Int) Int
 //@ func (*Scheme).Verify
 //@   property C05, C04
+//@   purefn
 //@   bind E group, PrimeGroup groupS
 //@   requires reference != nil ==> wfVV(reference)
 //@   requires s.lsss.MSP() != nil ==> wfM(s.lsss.MSP().Matrix())
@@ -76,4 +81,9 @@ package feldman
 //@   ensures err == nil ==> share != nil
 //@   ensures err == nil ==> res(ldf, 1) == nil && res(expected, 1) == nil && res(lifted, 1) == nil
 //@   ensures err == nil ==> res(expected, 0).Equal(res(lifted, 0))
+//@   ensures err == nil ==> len(share.Value()) == nrows(s.lsss.MSP(), share.ID())
 //@   ensures share != nil && res(ldf, 1) == nil && res(expected, 1) == nil && res(lifted, 1) == nil && res(expected, 0).Equal(res(lifted, 0)) ==> err == nil
+
+// wfVVin(v): representation invariant of a verification vector received in a message (non-nil vectors are
+// well formed); established by the CBOR decoder through NewVerificationVector.
+//@ pure func wfVVin(v *VerificationVector) bool = v != nil ==> wfVV(v)
